@@ -544,12 +544,39 @@ func GenMutationSites(outDir string) error {
 					continue
 				}
 				fi := &fnInv{pkg: sp, file: fname, fn: funcName(fd), sites: map[string]int{}}
+				// localValue: x is an identifier for a variable of a go/ast STRUCT VALUE type (not a pointer) declared in this
+				// function (`x := *node`, `var x ast.BinaryExpr`, a by-value parameter). Assigning a top-level field of such a
+				// variable writes the function's own cell — a fresh shallow copy — and nothing of the tree it was copied from.
+				// Writes that go THROUGH a field of the copy (x.List[0] = .., x.X.(*ast.Ident).Name = ..) are not of this form
+				// and stay ordinary sites.
+				localValue := func(e ast.Expr) bool {
+					id, ok := e.(*ast.Ident)
+					if !ok {
+						return false
+					}
+					v, ok := p.TypesInfo.ObjectOf(id).(*types.Var)
+					if !ok || v.IsField() || v.Pos() < fd.Pos() || v.Pos() > fd.End() {
+						return false
+					}
+					if _, isPtr := v.Type().(*types.Pointer); isPtr {
+						return false
+					}
+					if _, isStruct := v.Type().Underlying().(*types.Struct); !isStruct {
+						return false
+					}
+					_, isAst := isAstNamed(v.Type())
+					return isAst
+				}
 				lhsSite := func(lhs ast.Expr) {
 					switch x := lhs.(type) {
 					case *ast.SelectorExpr:
 						if sel, ok := p.TypesInfo.Selections[x]; ok && sel.Kind() == types.FieldVal {
 							if tn, ok := isAstNamed(sel.Recv()); ok {
-								fi.sites["field-write:"+tn+"."+x.Sel.Name]++
+								if localValue(x.X) && len(sel.Index()) == 1 {
+									fi.sites["local-value-write:"+tn+"."+x.Sel.Name]++
+								} else {
+									fi.sites["field-write:"+tn+"."+x.Sel.Name]++
+								}
 							}
 						}
 					case *ast.IndexExpr:
@@ -566,6 +593,16 @@ func GenMutationSites(outDir string) error {
 					switch x := n.(type) {
 					case *ast.AssignStmt:
 						if x.Tok == token.DEFINE {
+							// x := *node — a shallow copy of a node into a local value
+							for _, rhs := range x.Rhs {
+								if st, ok := rhs.(*ast.StarExpr); ok {
+									if pt, ok := p.TypesInfo.TypeOf(st.X).(*types.Pointer); ok {
+										if tn, ok := isAstNamed(pt.Elem()); ok {
+											fi.sites["shallowcopy:"+tn]++
+										}
+									}
+								}
+							}
 							return true
 						}
 						for _, lhs := range x.Lhs {
@@ -611,7 +648,8 @@ func GenMutationSites(outDir string) error {
 	b.WriteString("(* GENERATED by vh gen mutsites from the current source of checkers/, checkers/internal/{astwalk,lintutil}, linter/ — do not edit.\n")
 	b.WriteString("   Per function: every assignment to a field of a go/ast node type (field-write:T.F), every element write into a\n")
 	b.WriteString("   slice of go/ast nodes (slice-elem-write:[]T), every write through a pointer to a node (deref-write:T), every\n")
-	b.WriteString("   astutil.Cursor mutator call (cursor:M) and every astcopy call (astcopy:F), with counts. *)\n")
+	b.WriteString("   astutil.Cursor mutator call (cursor:M) and every astcopy call (astcopy:F), with counts. Benign kinds: a top-level field\n")
+	b.WriteString("   assignment to a LOCAL go/ast struct VALUE (local-value-write:T.F) and the shallow copy `x := *node` (shallowcopy:T). *)\n")
 	b.WriteString("From GC Require Import Base Model_Inventory.\n")
 	b.WriteString("Definition mutation_sites : list mut_fn := [\n")
 	var items []string
